@@ -7,6 +7,7 @@ import (
 	"fmt"
 	"os"
 	"runtime"
+	"time"
 )
 
 func sigOf(v interface{}) string {
@@ -28,12 +29,13 @@ func main() {
 	n := fs.Int("n", 0, "number of cases (0 = tier default)")
 	workers := fs.Int("workers", runtime.NumCPU(), "parallel workers")
 	budget := fs.Float64("budget", 1, "case count multiplier")
+	maxsec := fs.Float64("maxsec", 0, "wall-clock budget of the stage in seconds (0 = none)")
 	replay := fs.String("replay", "", "replay file")
 	fs.IntVar(&kindCap, "kindcap", 3, "violations recorded per kind")
 	fs.IntVar(&c03From, "from", 0, "first case index (child mode)")
 	fs.IntVar(&c03To, "to", 0, "end case index (child mode)")
 	fs.Parse(os.Args[2:])
-	ctx := &Ctx{Seed: *seed, Tier: *tier, Oracle: *oracle, MOracle: *moracle, Workers: *workers, Budget: *budget}
+	ctx := &Ctx{Seed: *seed, Tier: *tier, Oracle: *oracle, MOracle: *moracle, Workers: *workers, Budget: *budget, MaxSec: *maxsec, Start: time.Now()}
 	cnt := func(q, t int) int {
 		k := q
 		if *tier == "thorough" {
